@@ -25,6 +25,28 @@ def main(tier, replay=None):
     sc.replay_behaviours("N4W3S5_2eng", {"N": 4, "Workers": 3, "Steps": 5, "MaxPn": 16, "EngTypes": "TwoEngines", "EngNeed": "TwoNeed"}, 120 if q else 1500, 20)
     if not q:
         sc.replay_behaviours("N5W4S6", {"N": 5, "Workers": 4, "Steps": 6, "MaxPn": 20}, 1500, 24)
+    # beyond the bounds of TLC: the lock protocol's core (ApaLocks.tla) has an inductive invariant for every number of ensembles and
+    # workers up to the module's MaxN / MaxW (symbolic constants, Apalache)
+    from harness import tlc
+    import os
+    mod = "ApaLocks.tla"
+    bounds = "N in 2..7, W in 1..5"
+    if not q:
+        with open(os.path.join(tlc.SPEC_DIR, "ApaLocks.tla")) as fh:
+            txt = fh.read().replace("MaxN == 7", "MaxN == 10").replace("MaxW == 5", "MaxW == 8")
+        mod = os.path.join(sc.work, "ApaLocks.tla")
+        with open(mod, "w") as fh:
+            fh.write(txt)
+        bounds = "N in 2..10, W in 1..8"
+    ind = []
+    for label, args in (("Init => IndInv", ["--cinit=ConstInit", "--init=Init", "--inv=IndInv", "--length=0"]),
+                        ("IndInv /\\ Next => IndInv'", ["--cinit=ConstInit", "--init=IndInit", "--inv=IndInv", "--length=1"])):
+        r = tlc.run_apalache(mod, args, timeout=600 if q else 3000)
+        ind.append({"step": label, "outcome": r["outcome"], "wall_s": r["wall_s"]})
+        if r["outcome"] == "error":
+            sc.chk.machinery(f"Apalache refuted the inductive invariant of ApaLocks.tla ({label}):\n{r['tail']}")
+    sc.chk.cov["apalache_inductive_invariant"] = {"module": "ApaLocks.tla", "constants": bounds + " (symbolic)", "steps": ind}
+    print(f"  Apalache, inductive invariant of the lock protocol ({bounds}): {[(i['step'], i['outcome']) for i in ind]}", flush=True)
     specs = S.standard_random_specs(tier, sc.chk.seed, [3, 4, 5, 6] if q else [3, 4, 5, 6, 7, 8],
                                     lambda n: list(range(2, n)) or [1], 30 if q else 120, 32 if q else 320, restarts=not q)
     for i, sp in enumerate(specs):
